@@ -698,6 +698,9 @@ def drive(fn, kind, prefix, observer):
             outcome = ("ret", fn(rt))
         except E:
             outcome = ("exc", "E")
+        except Exception as ex:
+            # nothing in a generated program raises anything else: this is the observation disturbing its target
+            outcome = ("raised", type(ex).__name__, str(ex)[:120])
         return rt, rt.nprobe, outcome
     target = fn(rt)
     try:
@@ -729,6 +732,8 @@ def drive(fn, kind, prefix, observer):
         outcome = ("ret", None)
     except E:
         outcome = ("exc", "E")
+    except Exception as ex:
+        outcome = ("raised", type(ex).__name__, str(ex)[:120])
     return rt, nobs + rt.nprobe, outcome
 
 
